@@ -171,6 +171,10 @@ func Mk(op, k string, args ...*Term) *Term {
 			ka, _ := a.IntVal()
 			return Mk("not", "", Mk("cmp", ">", b, Int(ka-1)))
 		}
+		// between two non-constant integer terms only '>' is kept:  a >= b  ==  !(b > a)
+		if !aConst && !bConst && k == ">=" {
+			return Mk("not", "", Mk("cmp", ">", b, a))
+		}
 		// a length is never negative: len == 0  ==  !(len > 0)
 		if k == "==" {
 			for _, pr := range [][2]*Term{{a, b}, {b, a}} {
